@@ -11,7 +11,7 @@ from chython.files.daylight import tokenize as TK
 ID = 'C03'
 RULE = ('exhaustive token strings over a 24-token SMILES alphabet up to length 4 (quick) / 5 (thorough); random '
         'syntactically valid strings from an own generator (atoms with every isotope/charge spelling/H count/map, '
-        'branches, 1- and 2-digit closures with bond symbols and direction marks, dots, directional bonds, chirality marks, CX radicals, '
+        'branches, 1- and 2-digit closures with bond symbols and direction marks, dots, directional bonds, chirality marks, CX radicals, fragment-group blocks in reactions (generated strings and ~2400 salt reactions with up to three groups of 2-4 adjacent or scattered pieces, marks counted in written order), '
         'reaction arrows with empty roles); 12 ring templates x every placement of direction marks at the opening / closing '
         'closure digit; the 4200 corpus strings, RDKit random spellings of them, and every '
         'single-character deletion/insertion/substitution of sampled valid strings; oracle: independent reference '
@@ -31,13 +31,13 @@ CONFIG = {
               'floors': {'evaluations': 300000, 'distinct_nontrivial': 100000, 'exhaustive.strings': 300000,
                          'verdict.both-accept': 8000, 'verdict.both-reject': 100000, 'graph.compared': 8000,
                          'stereo.centres-compared': 1500, 'rdkit.h-compared': 800, 'charge-spellings-seen': 14,
-                         'closure-marks.opening-digit-only': 90, 'closure-marks.closing-digit-only': 90}},
+                         'closure-marks.opening-digit-only': 90, 'closure-marks.closing-digit-only': 90, 'generated.reactions-with-group-block': 1500, 'generated.group-of-three-after-the-first': 150}},
     'thorough': {'shards': 16, 'budget_s': 1800, 'maxlen': 5, 'n_random': 2500000, 'n_corpus': 4200, 'n_corrupt': 150,
                  'exhaustive_subspaces': ['all strings of <= 5 tokens over the 24-token alphabet'],
                  'floors': {'evaluations': 8000000, 'distinct_nontrivial': 1000000, 'exhaustive.strings': 8000000,
                             'verdict.both-accept': 200000, 'verdict.both-reject': 1000000, 'graph.compared': 200000,
                             'stereo.centres-compared': 20000, 'rdkit.h-compared': 3000, 'charge-spellings-seen': 16,
-                            'closure-marks.opening-digit-only': 90, 'closure-marks.closing-digit-only': 90}},
+                            'closure-marks.opening-digit-only': 90, 'closure-marks.closing-digit-only': 90, 'generated.reactions-with-group-block': 1500, 'generated.group-of-three-after-the-first': 150}},
 }
 
 # reach counter on the tokenizer's charge table
@@ -382,11 +382,63 @@ def random_valid(rng):
     if open_rings:
         # close what is open on a final carbon
         s += 'C' + ''.join(str(n) if n < 10 else '%%%d' % n for n in open_rings)
-    if rng.random() < .08:
+    if rng.random() < .12:
         parts = s.split('.')
         i, j = sorted((rng.randrange(len(parts) + 1), rng.randrange(len(parts) + 1)))
         s = '.'.join(parts[:i]) + '>' + '.'.join(parts[i:j]) + '>' + '.'.join(parts[j:])
     return s
+
+
+def with_groups(s, rng):
+    """a fragment-group block (one or two groups of 2-4 pieces of one role, members adjacent or not) and sometimes radical marks"""
+    roles = [r.split('.') if r else [] for r in s.split('>')]
+    idx, k, groups = [], 0, []
+    for r in roles:
+        idx.append(list(range(k, k + len(r))))
+        k += len(r)
+    for ids in rng.sample(idx, len(idx)):
+        if len(ids) >= 2 and len(groups) < 2 and rng.random() < .8:
+            groups.append(sorted(rng.sample(ids, rng.randrange(2, min(4, len(ids)) + 1))))
+    if not groups:
+        return None
+    rng.shuffle(groups)
+    blocks = ['f:' + ','.join('.'.join(map(str, g)) for g in groups)]
+    if rng.random() < .4:
+        blocks.append('^1:%s' % ','.join(map(str, sorted(rng.sample(range(0, 8), rng.randrange(1, 3))))))
+        if rng.random() < .5:
+            blocks.reverse()
+    return '%s |%s|' % (s, ','.join(blocks))
+
+
+PIECES = ['CO', '[Na+]', 'C', '[Cl-]', 'CC', '[K+]', 'O', '[Br-]', 'c1ccccc1', '[OH-]', 'CC(=O)[O-]', '[NH4+]', '[O-]C([O-])=O', '[Ca+2]', '[Li+]',
+          '[O-]S([O-])(=O)=O', 'C[C@H](N)O', 'F/C=C/F', '[13CH4]', 'C1CC1']
+
+
+def salt_reaction(rng):
+    """reaction text of simple pieces with up to three groups of 2-4 pieces (any group may be the large one, in any role)"""
+    sizes = [rng.randrange(0, 8), rng.randrange(0, 5), rng.randrange(0, 6)]
+    if not sum(sizes):
+        sizes[0] = 3
+    roles = [[rng.choice(PIECES) for _ in range(k)] for k in sizes]
+    s = '>'.join('.'.join(r) for r in roles)
+    idx, k, groups = [], 0, []
+    for r in roles:
+        idx.append(list(range(k, k + len(r))))
+        k += len(r)
+    for ids in idx:
+        free = list(ids)
+        while len(free) >= 2 and len(groups) < 3 and rng.random() < .7:
+            g = sorted(rng.sample(free, rng.randrange(2, min(4, len(free)) + 1)))
+            groups.append(g)
+            free = [x for x in free if x not in g]
+    if not groups:
+        return s
+    if rng.random() < .3:
+        rng.shuffle(groups)
+    blocks = ['f:' + ','.join('.'.join(map(str, g)) for g in groups)]
+    if rng.random() < .3:
+        blocks.append('^1:%d' % rng.randrange(0, 6))
+    return '%s |%s|' % (s, ','.join(blocks))
 
 
 def corrupt(s, rng):
@@ -454,6 +506,18 @@ def worker(ctx):
         if rng.random() < .05:
             rads = sorted(rng.sample(range(0, 6), rng.randrange(1, 3)))
             judge(ctx, s + ' |^1:%s|' % ','.join(map(str, rads)), 'generated-cx')
+        if s.count('>') == 2 and s.count('.') >= 2:
+            grouped = with_groups(s, rng)
+            if grouped:
+                ctx.count('generated.reactions-with-group-block')
+                judge(ctx, grouped, 'generated-cx-groups')
+    for _ in range(cfg.get('n_salt', 150)):
+        t = salt_reaction(rng)
+        if ' |f:' in t:
+            ctx.count('generated.reactions-with-group-block')
+            if any(g.count('.') >= 2 for g in t.split('f:')[1].split(',')[1:]):
+                ctx.count('generated.group-of-three-after-the-first')
+        judge(ctx, t, 'generated-salt-reaction')
     # 3b. direction marks at ring-closure digits: at the opening digit only, at the closing digit only, at both; the stereo
     # double bond on the opening atom, on the closing atom, inside the ring, behind a branch; one- and two-digit numbers
     k = 0
